@@ -319,12 +319,10 @@ def run(ctx: core.Run):
     )
     ctx.exhaustive = False
     ctx.notes += [
-        "proved for every input (no size bound): spec_decodes_enc, enc_no_noop, enc_size_bound (Apple's n+ceil(n/127), "
+        "proved for every input (no size bound): enc_chunks, spec_decodes_enc, enc_no_noop, enc_size_bound (Apple's n+ceil(n/127), "
         "attained at n=128), dec_complete (every conforming stream incl. no-op headers), dec_enc, dec_exact_or_reject, "
         "dec_rejects_valueError, impl_agree_dec (decC = decPy incl. which inputs are rejected and how), impl_agree_enc, "
         "decC_in_bounds, decC_never_indexError",
-        "stated in DESIGN, not proved: enc_chunks (chunk-list presentation of the encoder output); its content is "
-        "covered by Lemmas/Rle.encFrom_step + spec_decodes_enc",
         "impl_agree_enc is definitional in the model (encC := encPy); that the two source texts are the same state "
         "machine is tied by the correspondence run (rle.py vs emulated _rle.pyx on every encoder case)",
     ]
